@@ -623,20 +623,47 @@ def index_of(pool, t):
     return -1
 
 
+# what is done with the loaded document: the property speaks of ANY package saved from it
+SAVE_PLANS = [['save'], ['save', 'save'], ['save', 'save', 'save'], ['save', 'edit', 'save'], ['edit', 'save', 'save']]
+
+
+def unrelated_edit(doc):
+    """append, move and remove nodes that have nothing to do with styles (through the library: this is the use under test)"""
+    from odf.element import Element
+    top = doc.body.firstChild if doc.body.firstChild is not None else doc.body
+    a = Element(qname=Q('text:p'), check_grammar=False); a.addText(u'one', check_grammar=False)
+    b = Element(qname=Q('text:p'), check_grammar=False); b.addText(u'two', check_grammar=False)
+    top.addElement(a, check_grammar=False)
+    top.addElement(b, check_grammar=False)
+    top.removeChild(a)
+    top.insertBefore(b, top.firstChild)
+    top.removeChild(b)
+    top.addElement(a, check_grammar=False)
+
+
 def oracle(spec, T, loader):
-    """returns (failures, stats); failures = [(signature, detail)]"""
+    """returns (failures, stats, trip); failures = [(signature, detail)]; every package saved from the loaded document
+    (spec['saves'] picks a SAVE_PLANS entry) and the document before each save are judged against the source"""
     data, content, styles = build_package(spec)
     src = view_of_parts(content, styles)
     before = sites_of(src, T)
     doc = loader(io.BytesIO(data))
-    mem = sites_of(view_of_doc(doc), T)
-    out = io.BytesIO(); doc.save(out)
-    saved = view_of_zip(out.getvalue())
-    after = sites_of(saved, T)
+    rounds = []
+    for step in SAVE_PLANS[spec.get('saves', 0)]:
+        if step == 'edit':
+            unrelated_edit(doc)
+            continue
+        mv = view_of_doc(doc)
+        fix = dict(doc._styles_ooo_fix)
+        out = io.BytesIO(); doc.save(out)
+        saved = view_of_zip(out.getvalue())
+        rounds.append({'mv': mv, 'fix': fix, 'mem': sites_of(mv, T), 'saved': saved, 'after': sites_of(saved, T)})
+    rounds[-1]['mem_end'] = sites_of(view_of_doc(doc), T)
     cnames = set(t[1].get(STYLE_NAME) for t in src.cauto)
     snames = set(t[1].get(STYLE_NAME) for t in src.sauto)
     fails = []
-    stats = {'sites': 0, 'resolved_before': 0, 'preserved_saved': 0, 'preserved_mem': 0, 'clash_sites': 0, 'owner_not_written': 0}
+    stats = {'sites': 0, 'resolved_before': 0, 'preserved_saved': 0, 'preserved_mem': 0, 'clash_sites': 0, 'owner_not_written': 0,
+             'packages_saved': len(rounds)}
     tag = spec.get('tag')
     for key in sorted(before, key=repr):
         b = before[key]
@@ -657,30 +684,35 @@ def oracle(spec, T, loader):
             stats['clash_sites'] += 1
         sig0 = '%s:%s:%s%s%s%s' % (sig_kind(b['target']), b['attr'], placement, '' if clash else ':noclash',
                                    mconfig(src, b['name']), ('+' + tag) if tag else '')
-        for where, res in (('saved package', after), ('loaded document', mem)):
+        views = []
+        for k, rd in enumerate(rounds):
+            views.append(('loaded document before save #%d' % (k + 1), rd['mem'], False))
+            views.append(('package of save #%d' % (k + 1), rd['after'], True))
+        views.append(('loaded document after save #%d' % len(rounds), rounds[-1]['mem_end'], False))
+        for where, res, is_pkg in views:
             r = res.get(key)
             sig = sig0
             if b['attr'] in T['c11_listy'] and r is not None and r['value'] != b['value'] and r['value'] == u' '.join(b['value']):
                 # the value itself was changed by the attribute converter (cnv_NCNames before d63f896), clash or not: never a known finding
                 sig = 'respaced:%s' % b['attr']
-            if r is None and where == 'loaded document' and region in ('cauto', 'sauto'):
+            if r is None and not is_pkg and region in ('cauto', 'sauto'):
                 # in memory there is one container: the owner is found under either region name
                 r = res.get(('cauto' if region == 'sauto' else 'sauto',) + key[1:])
             if r is None:
-                if region in ('body', 'master', 'common') or where == 'loaded document':
+                if region in ('body', 'master', 'common') or not is_pkg:
                     fails.append((sig, '%s: reference site %s %s="%s" is gone' % (where, key[1], b['attr'], b['name'])))
                 else:
                     stats['owner_not_written'] += 1     # an unused automatic style is not written: its references went with it
                 continue
             m2 = marker_of(r['target'])
             if m2 == m:
-                stats['preserved_saved' if where == 'saved package' else 'preserved_mem'] += 1
+                stats['preserved_saved' if is_pkg else 'preserved_mem'] += 1
             else:
                 fails.append((sig, '%s: <%s %s="%s"> (site %s, %s) resolved to the %s marked %s in the source, now %s'
                               % (where, b['host'], b['attr'], r['name'], key[1], region, def_kind(b['target']), m,
                                  ('to the one marked %s' % m2) if m2 is not None else
                                  ('dangles (value "%s")' % r['name']))))
-    return fails, stats, (src, doc, saved)
+    return fails, stats, (src, doc, rounds)
 
 
 # ------------------------------------------------------------------ the matrix
@@ -834,6 +866,36 @@ def layout_cells():
                          'placement': 'both' if both else 'master', 'layout': lay}
 
 
+def resave_cells():
+    """several packages saved from one loaded document (and unrelated edits in between), with and without a meta.xml
+    that names a generator (save() replaces it), for one cell per column of the matrix and the headerfooter case"""
+    for kind, attr, host in LAYOUT_CASES:
+        for lay in (0, 4):
+            for plan in range(1, len(SAVE_PLANS)):
+                name = COLLIDING_NAME[kind]
+                spec = empty_spec()
+                spec['layout'] = lay; spec['saves'] = plan
+                spec['cauto'].append(sdef(kind, name, 'A', mm='child')); spec['sauto'].append(sdef(kind, name, 'B'))
+                both = host != 'style:master-page'
+                controls(spec, attr, host, kind, ('master', 'body') if both else ('master',))
+                if both:
+                    spec['body'].append(site('b1', attr, host, name))
+                spec['master'].append(site('m1', attr, host, name))
+                yield spec, {'block': 'direct', 'kind': kind, 'attr': attr, 'host': host,
+                             'placement': 'both' if both else 'master', 'layout': lay, 'saves': plan}
+    # headerfooter.odt in small: P1, P2 in both parts, header and footer, body paragraphs
+    for lay in (0, 5):
+        for plan in range(1, len(SAVE_PLANS)):
+            s = empty_spec()
+            s['layout'] = lay; s['saves'] = plan
+            s['cauto'] += [sdef('paragraph', 'P1', 'A'), sdef('paragraph', 'P2', 'A2', mm='child')]
+            s['sauto'] += [sdef('paragraph', 'P1', 'B', mm='child'), sdef('paragraph', 'P2', 'B2'), sdef('page-layout', 'pm1', 'PL')]
+            s['body'] += [site('b1', 'text:style-name', 'text:p', 'P1'), site('b2', 'text:style-name', 'text:p', 'P2')]
+            s['master'] += [site('m0', 'style:page-layout-name', 'style:master-page', 'pm1'),
+                            site('m1', 'text:style-name', 'text:p', 'P1'), site('m2', 'text:style-name', 'text:p', 'P2')]
+            yield s, {'block': 'special', 'what': 'headerfooter: P1, P2 in both parts', 'layout': lay, 'saves': plan}
+
+
 def special_cells():
     # fixed cases for the ways two definitions of one name can differ: P1 and T1 in both parts, referenced from body and header
     for mc, ms in MARKER_MODES:
@@ -885,6 +947,8 @@ def all_cells(H):
     for c in internal_cells():
         yield c
     for c in layout_cells():
+        yield c
+    for c in resave_cells():
         yield c
     for c in special_cells():
         yield c
@@ -978,6 +1042,7 @@ def gen_random(rng, DP):
                 spec[part].append(d)          # (relative order inside the configuration is what matters)
         spec['body'] += extra['body']; spec['master'] += extra['master']
     spec['layout'] = rng.randrange(len(LAYOUTS))
+    spec['saves'] = rng.choice([0, 0, 0, 1, 2, 3, 4])
     return spec, {'block': 'random', 'collisions': ncoll, 'kinds': kinds, 'mnames': mcfg, 'layout': spec['layout']}
 
 
@@ -1025,10 +1090,10 @@ def flatten(view, T, marker_index):
     return ' '.join(toks), [r[0] for r in b] + [r[0] for r in m] + kca + ksa + kco
 
 
-def observe(trip, T, keys, marker_index, before, mem, after):
-    """the same observables on the real load() + save()"""
-    src, doc, saved = trip
+def observe(rd, T, keys, marker_index, before):
+    """the same observables on the real load() + save(), for one saved package `rd` (a round of `oracle`)"""
     schema = T['c11_schema']; listy = T['c11_listy']
+    mv, saved, mem, after = rd['mv'], rd['saved'], rd['mem'], rd['after']
 
     def names_of(tree):
         out = []
@@ -1041,8 +1106,7 @@ def observe(trip, T, keys, marker_index, before, mem, after):
 
     def mi(t):
         return marker_index.get(marker_of(t), 'x%s' % marker_of(t))
-    mv = view_of_doc(doc)
-    fix = sorted('%s>%s' % (enc_str(u'%s' % (a,)), enc_str(u'%s' % (b,))) for a, b in doc._styles_ooo_fix.items())
+    fix = sorted('%s>%s' % (enc_str(u'%s' % (a,)), enc_str(u'%s' % (b,))) for a, b in rd['fix'].items())
     L = ['%s=%s(%s)' % (mi(d), enc_str(d[1].get(STYLE_NAME, u'')), ','.join(names_of(d))) for d in mv.common + mv.cauto]
 
     def res(r, key, alias=False):
@@ -1084,6 +1148,7 @@ def run_case(chk, spec, info, T, loader, lines, pending):
         chk.count('placement_' + info['placement'])
     if 'layout' in info:
         chk.count('layout_%d' % info['layout'])
+    chk.count('save_plan_' + '-'.join(SAVE_PLANS[spec.get('saves', 0)]))
     if 'differ' in info:
         chk.count('definitions_differ_' + info['differ'])
     for k, v in sorted(stats.items()):
@@ -1099,9 +1164,10 @@ def run_case(chk, spec, info, T, loader, lines, pending):
     if lines is not None:
         mi = {}
         line, keys = flatten(trip[0], T, mi)
-        before = sites_of(trip[0], T); mem = sites_of(view_of_doc(trip[1]), T); after = sites_of(trip[2], T)
+        before = sites_of(trip[0], T)
         lines.append(line)
-        pending.append((observe(trip, T, keys, mi, before, mem, after), spec, info))
+        # the model's save is a function of the loaded document: every package saved from it must be the model's package
+        pending.append(([observe(rd, T, keys, mi, before) for rd in trip[2]], spec, info))
     return fails
 
 
@@ -1165,8 +1231,9 @@ def run(chk, replay=None):
         spec, info = gen_random(chk.rng, DP)
         results.append((info, run_case(chk, spec, info, T, load, lines, pend)))
     answers = drv.batch(lines)
-    for (impl, spec, info), model in zip(pend, answers):
+    for (impls, spec, info), model in zip(pend, answers):
         chk.corr()
+        impl = impls[0]
         model, _, handled = model.strip().partition(' | H ')
         # the hypotheses of resolve_preserved_partial, evaluated by the model on this package: where they hold the
         # REAL load()+save() must have preserved the site (the theorem's prediction, checked on the implementation)
@@ -1183,6 +1250,10 @@ def run(chk, replay=None):
                         if not (x[1] == x[0] and x[2] in (x[0], '~')):
                             chk.corr_diff({'spec': spec, 'info': info}, r, 'Handled package, HandledSite: preserved',
                                           'resolve_preserved_partial predicts this site is preserved; the real load()+save() gave before/memory/saved = ' + r)
+        for k, later in enumerate(impls[1:]):
+            if later != canon_model(model.strip()):
+                chk.corr_diff({'spec': spec, 'info': info, 'save': k + 2}, later, model,
+                              'save #%d from the same loaded document: the observables of the first save, again' % (k + 2))
         if impl != canon_model(model.strip()):
             chk.corr_diff({'spec': spec, 'info': info}, impl, model,
                           '_styles_ooo_fix | names and reference values after load | automatic styles written to content.xml | to styles.xml | resolution of every site before/in memory/saved')
